@@ -512,6 +512,14 @@ func (m *c04Model) solve(g *c04Goal, e *menv, local map[string]*mt, k func(*menv
 			return sigCap
 		}
 		return m.raise(isoError(mCmp("existence_error", mAtom("procedure"), mCmp("/", mAtom(t.f), mAtom(fmt.Sprint(len(t.a)))))))
+	case "rec":
+		// rec(D, T): the recursion unfolded. rec(0, T) :- pt(90), throw(b(T)).
+		// rec(N, T) :- N > 0, N1 is N - 1, catch(rec(N1, T), b(N), pt(91)), pt(92).
+		level := &c04Goal{Op: "and", Args: []*c04Goal{{Op: "pt", I: 90}, {Op: "throw", T: fmt.Sprintf("b(%d)", g.V)}}}
+		for n := 1; n <= g.N; n++ {
+			level = &c04Goal{Op: "and", Args: []*c04Goal{{Op: "catch", T: fmt.Sprintf("b(%d)", n), Args: []*c04Goal{level, {Op: "pt", I: 91}}}, {Op: "pt", I: 92}}}
+		}
+		return m.solve(level, e, map[string]*mt{}, k)
 	case "user":
 		// u_k(Arg): clauses tried in order; each gets fresh local variables
 		arg := m.term(g.T, local)
